@@ -1,5 +1,5 @@
 """C14 — SparseMerkleTree is a fixed-depth map whose root and branches always verify (DESIGN §5 C14)."""
-from ..engine import explore, pmap, unjson, HarnessError
+from ..engine import explore, pmap, replay_doc
 from ..report import Report
 from ..smtsys import SmtSys
 
@@ -50,26 +50,7 @@ def _name(kw):
 
 
 def replay_smt(doc):
-    outcomes = []
-    for _ in range(2):
-        sysm = SmtSys.from_kwargs(doc["system"]["kwargs"])
-        hist = [unjson(e) for e in doc["history"]]
-        snap, model = sysm.initial()[hist[0][1]]
-        found = []
-        for ev in hist[1:]:
-            found += [v["check"] for v in sysm.state_check(snap, model)]
-            st = sysm.step(snap, model, ev)
-            found += [v["check"] for v in st.viols]
-            if st.snap is None:
-                break
-            snap, model = st.snap, st.model
-        else:
-            found += [v["check"] for v in sysm.state_check(snap, model)]
-        outcomes.append(found)
-    if outcomes[0] != outcomes[1]:
-        raise HarnessError("replay is not deterministic")
-    print("replayed history; failing checks:", outcomes[0])
-    return doc["check"] in outcomes[0]
+    return replay_doc(lambda: SmtSys.from_kwargs(doc["system"]["kwargs"]), doc)
 
 
 replay = replay_smt
